@@ -6,7 +6,11 @@
    coq/Gen/Drift.v that coqc compiles (exact in both parsers), and the harness compares every table bit for bit
    with the implementation's (`drift-tab` case lines). *)
 From Coq Require Import Extraction ExtrOcamlBasic ExtrOCamlFloats.
-From AG Require Import Base.Prelude Base.Res Base.Bytes Recon.Drift.
+(* one module per line: tools/vlib.py derives the make targets of the runner from these lines *)
+From AG Require Import Base.Prelude.
+From AG Require Import Base.Res.
+From AG Require Import Base.Bytes.
+From AG Require Import Recon.Drift.
 
 Extraction Language OCaml.
 Extraction Blacklist String List Int Z Str Unix Array Bytes Char.
